@@ -323,7 +323,10 @@ var commentTexts = []string{"", " note", " voilà", " \xa0", " x\x85", " tab\the
 	// a carriage return inside a comment does not end it (only the line feed does)
 	" was:\r2", " old\r\"CD\"", " cr\r<I2 7> ", " \r256", " x\r", " \r>"}
 
-func (l *Layout) gap(first bool) string {
+func (l *Layout) gap(first bool) string { return l.gapAfter(first, false) }
+
+// gapAfter: glue = the comment that opens the gap may stand directly behind the previous token
+func (l *Layout) gapAfter(first bool, glue bool) string {
 	r := l.R
 	var sb strings.Builder
 	n := 1 + r.Intn(3)
@@ -342,7 +345,12 @@ func (l *Layout) gap(first bool) string {
 			}
 		case 2:
 			if l.Comments {
-				sb.WriteString(" //" + commentTexts[r.Intn(len(commentTexts))])
+				if glue && i == 0 && r.Intn(2) == 0 {
+					// no blank between the token and the comment
+					sb.WriteString("//" + commentTexts[r.Intn(len(commentTexts))])
+				} else {
+					sb.WriteString(" //" + commentTexts[r.Intn(len(commentTexts))])
+				}
 				if l.CRLF {
 					sb.WriteString("\r\n")
 				} else {
@@ -403,7 +411,7 @@ func (l *Layout) render(toks []STok) (string, [][2]int) {
 				write("\n")
 			}
 		} else if !touch {
-			write(l.gap(false))
+			write(l.gapAfter(false, !strings.HasSuffix(toks[i-1].Text, "/")))
 		}
 		pos = append(pos, [2]int{line, col})
 		s := t.Text
